@@ -1164,6 +1164,58 @@ func ruleC19Arms(r *Run) {
 		}
 		r.Check(rule, "render.Auto:case "+a.name, w.InstrPos(a.iff), bad == "", map[bool]string{true: "every path on which the accepted type equals this constant ends the negotiation with an outcome", false: bad}[bad == ""])
 	}
+	// the list that is compared: the library's parser, or — when the module parses the header itself — elements that
+	// are trimmed LAST (after the ";q=..." parameters were cut off: "a/b ;q=1" must not keep its blank)
+	for _, a := range arms {
+		ld, isLd := a.acc.(*ssa.UnOp)
+		if !isLd {
+			continue
+		}
+		ia, isIA := ld.X.(*ssa.IndexAddr)
+		if !isIA {
+			continue
+		}
+		var appends []*ssa.Call
+		external := false
+		flowsFromDeep(ia.X, func(y ssa.Value) bool {
+			if c, ok := y.(*ssa.Call); ok {
+				if isBuiltin(c, "append") {
+					appends = append(appends, c)
+				} else if sc := staticCallee(c); sc != nil && !w.InModule(sc) && isSliceType(c.Type()) {
+					external = true
+				}
+			}
+			return false
+		})
+		bad := ""
+		for _, ap := range appends {
+			if len(ap.Call.Args) < 2 {
+				continue
+			}
+			for _, el := range litElems(ap.Call.Args[1]) {
+				for _, lf := range valueLeaves(el) {
+					switch x := lf.(type) {
+					case *ssa.Const:
+					case *ssa.UnOp:
+						// a configured fallback type (package variable)
+						if _, isG := x.X.(*ssa.Global); !isG {
+							bad = shortCanon(canon(lf))
+						}
+					case *ssa.Call:
+						if calleeName(x) != "strings.TrimSpace" {
+							bad = shortCanon(canon(lf))
+						}
+					default:
+						bad = shortCanon(canon(lf))
+					}
+				}
+			}
+		}
+		if len(appends) > 0 || external {
+			r.Check(rule, "render.Auto:accepted types are trimmed", w.InstrPos(a.iff), bad == "", map[bool]string{true: "the accepted types come from the library parser, or every element the module's own parser collects is the result of strings.TrimSpace (constants and the configured fallback aside)", false: "the module parses the Accept header itself and collects an element (" + bad + ") that is not trimmed after its parameters were cut: \"application/xml ;q=0.9\" keeps a trailing blank, matches no MIME constant and a supported type is skipped or refused"}[bad == ""])
+		}
+		break
+	}
 	r.Exists(rule, "render.Auto:supported types", auto.Pos(), len(names) >= 4, fmt.Sprintf("%d MIME constants are compared with the accepted type", len(names)))
 	r.Check(rule, "render.Auto:first supported type wins", auto.Pos(), allOK && len(arms) > 0, "no arm lets the loop over the Accept list continue: the first supported type decides")
 }
@@ -1794,6 +1846,44 @@ func ruleC20Wrap(r *Run) {
 					}
 				}
 			}
+			// a counter that runs down: for i := len(list)-1; i >= 0; i-- { list[i] }  or  for i := len(list); i > 0; i-- { list[i-1] }
+			downFrom := func(v ssa.Value, start func(ssa.Value) bool) bool {
+				ph, isPhi := v.(*ssa.Phi)
+				if !isPhi {
+					return false
+				}
+				inits, steps := 0, 0
+				for _, e := range ph.Edges {
+					if b, isB := e.(*ssa.BinOp); isB && b.Op == token.SUB && b.X == ssa.Value(ph) {
+						if one, okc := constInt(b.Y); okc && one == 1 {
+							steps++
+							continue
+						}
+					}
+					if start(e) {
+						inits++
+						continue
+					}
+					return false
+				}
+				return inits >= 1 && steps >= 1
+			}
+			lenMinus1 := func(v ssa.Value) bool {
+				b, isB := v.(*ssa.BinOp)
+				if !isB || b.Op != token.SUB {
+					return false
+				}
+				one, okc := constInt(b.Y)
+				return okc && one == 1 && isLenList(b.X)
+			}
+			if !ok && downFrom(idx, lenMinus1) {
+				ok = true
+			}
+			if b, isB := idx.(*ssa.BinOp); !ok && isB && b.Op == token.SUB {
+				if one, okc := constInt(b.Y); okc && one == 1 && downFrom(b.X, isLenList) {
+					ok = true
+				}
+			}
 			if ok {
 				desc++
 			} else {
@@ -1801,14 +1891,45 @@ func ruleC20Wrap(r *Run) {
 			}
 		}
 	})
+	// closures made in a loop must not capture a variable that the loop re-assigns: with the module's language
+	// version (< 1.22) a range / for variable is ONE variable, every closure sees its last value when it finally runs
+	capt := 0
+	for _, g := range append([]*ssa.Function{f}, calleesOf(w, f)...) {
+		eachInstr(g, func(in ssa.Instruction) {
+			mc, ok := in.(*ssa.MakeClosure)
+			if !ok || !inLoop(in) {
+				return
+			}
+			ln := loopNest(g)
+			for _, b := range mc.Bindings {
+				al, isAl := b.(*ssa.Alloc)
+				if !isAl {
+					continue
+				}
+				// the cell lives outside the innermost loop around the closure and is stored to inside it
+				for h := range ln[in.Block()] {
+					if ln[al.Block()][h] {
+						continue // allocated per iteration of this loop
+					}
+					for _, ref := range *al.Referrers() {
+						if st, isSt := ref.(*ssa.Store); isSt && st.Addr == ssa.Value(al) && ln[st.Block()][h] {
+							capt++
+							r.Check(rule, fmt.Sprintf("%s:closure captures a loop variable#%d", FuncName(g), capt), w.InstrPos(in), false,
+								"a closure created in a loop captures the variable "+al.Comment+" that the loop re-assigns (one variable for all iterations under this module's language version): when the composed wrappers finally run, every one of them sees the LAST list element — wrappers in the middle of the list are never applied")
+							return
+						}
+					}
+				}
+			}
+		})
+	}
 	switch {
 	case desc > 0 && asc == 0 && other == 0:
 		r.Check(rule, FuncName(f)+":fold order", f.Pos(), true, "wrappers are applied from the last listed to the first (index len-1-i over an ascending i), each to the accumulated handler: the first listed wrapper is outermost for every list length")
 	case asc > 0 && writes == 0:
 		r.Check(rule, FuncName(f)+":fold order", f.Pos(), false, "wrappers are applied in ascending list order to the accumulated handler: the first listed wrapper ends up innermost")
 	default:
-		r.Note("C20-WRAP: fold shape of WrapHTTPHandlers not recognised (%d unrecognised index expressions); order not decided, only the read-only clause is", other)
-		r.Exists(rule, FuncName(f)+":fold order", f.Pos(), true, "fold shape not recognised: order not decided (see notes)")
+		r.Undecided(rule, FuncName(f)+":fold order", f.Pos(), fmt.Sprintf("the way the wrapper list is folded is not one this rule can read (%d index expression(s) that are neither an ascending nor a descending walk, or a fold through composed closures): whether the first listed wrapper ends up outermost for every list length is not decided", other))
 	}
 }
 
